@@ -92,6 +92,15 @@ def exhaustive(ctx):
 
 
 def execute(ctx, case):
+    # "a rate is NaN exactly when its denominator is zero" - in whatever floating-point error mode the caller runs: a fifth of the
+    # cases run under np.errstate(all="raise") (a common debugging setting); the oracles keep their own errstate
+    if int(np.asarray(case["m"]).sum() * 7 + np.asarray(case["m"]).size) % 5 == 0 and np.asarray(case["m"]).dtype.kind in "iu":
+        with np.errstate(all="raise"):
+            return _execute(ctx, case, strict=True)
+    return _execute(ctx, case, strict=False)
+
+
+def _execute(ctx, case, strict):
     from score_analysis import ConfusionMatrix
     from score_analysis import metrics as M
 
